@@ -2518,8 +2518,9 @@ def make_natives(I):
             return f_tojson(v)
         if name in ("@csv", "@tsv"):
             if kind(v) != "array":
-                # 1.6: "... cannot be csv-formatted, only array"; the 1.7.1 sentence is not recorded anywhere
-                raise Unsupported("@csv/@tsv of a non-array (sentence not recorded)")
+                # jq 1.6 says "... cannot be csv-formatted, only array"; src/jq/eval.rs (format_csv) records the same sentence
+                # as 'confirmed live' against jq 1.7.1
+                raise type_error(v, "cannot be %s-formatted, only array" % name[1:])
             cells = []
             for x in v:
                 xk = kind(x)
